@@ -91,23 +91,35 @@ pub fn run_case(case: &ScriptCase, c: &mut Counters, work: &std::path::Path) -> 
             return (None, false);
         }
     }
+    // the two sides must start from the same observable state (they received the same calls)
+    if digest(s.g.as_ref(), LIGHT, &labels) != digest(b.as_ref(), LIGHT, &labels) {
+        c.inc("c14.base-history-diverged");
+        return (None, false);
+    }
     let op = Op::Script { text: case.text.clone(), cmds: case.cmds.clone(), fault_at: case.fault_at };
     let o = s.step(&op);
     c.inc("c14.scripts-deployed");
-    if let Some(p) = &o.panic {
-        return (
-            Some(format!(
-                "deploy_to() panicked ({p}) on a {} script",
-                if case.fault_at.is_some() { "malformed" } else { "well-formed" }
-            )),
-            false,
-        );
-    }
     let upto = case.fault_at.unwrap_or(case.cmds.len());
-    if let Err(p) = direct(&mut b, &case.cmds[..upto]) {
-        c.inc("c14.direct-calls-panicked");
-        let _ = p;
-        return (None, false);
+    let direct_res = direct(&mut b, &case.cmds[..upto]);
+    match (&o.panic, &direct_res) {
+        (Some(_), Err(_)) => {
+            // the same calls panic when made directly: not the script's doing
+            c.inc("c14.both-sides-panicked(skipped)");
+            return (None, false);
+        }
+        (Some(p), Ok(())) => {
+            return (
+                Some(format!(
+                    "deploy_to() panicked ({p}) on a {} script; the same calls made directly do not panic",
+                    if case.fault_at.is_some() { "malformed" } else { "well-formed" }
+                )),
+                false,
+            );
+        }
+        (None, Err(p)) => {
+            return (Some(format!("the direct calls panic ({p}) where the script does not")), false);
+        }
+        (None, Ok(())) => {}
     }
     match (&o.ret, case.fault_at) {
         (Ret::Res(Ok(cnt)), None) => {
